@@ -74,6 +74,10 @@ def _(w, e):
         obj = HRef.from_sequence([need(w, h) for h in root["path"]])
     elif root["r"] == "opin":
         obj = need(w, root["i"]).pins[need(w, root["p"])]
+    elif root["r"] == "mix":
+        # one collection of roots of different kinds: plain elements and hierarchical references side by side
+        obj = [need(w, m["h"]) if m["r"] == "h" else HRef.from_sequence([need(w, h) for h in m["path"]])
+               for m in root["items"]]
     else:
         obj = [need(w, h) for h in root["hs"]]
     fn = SPECS[e["fn"]][0]
@@ -142,6 +146,29 @@ class FGen:
             if ph is None:
                 return self()
             root = {"r": "opin", "i": ih, "p": ph}
+        elif x < 0.39 and name.startswith("h"):
+            # the netlist next to references to things INSIDE some of its occurrences (ports, cables, their bits): what
+            # one root reaches by its name search another reaches directly
+            n = w.h(self.b.netlist)
+            try:
+                el = Elab(n)
+            except OverflowError:
+                return self()
+            items = [{"r": "h", "h": self.b.netlist}]
+            for p in r.sample(el.occ, min(len(el.occ), r.randint(1, 2))):
+                d = p[-1].reference
+                if d is None:
+                    continue
+                inner = [(q,) for q in d.ports] + [(c,) for c in d.cables]
+                inner += [(q, pin) for q in d.ports for pin in q.pins] + [(c, wr) for c in d.cables for wr in c.wires]
+                if inner:
+                    hs = [w.handle_of(i) for i in p] + [w.handle_of(x) for x in r.choice(inner)]
+                    if all(h is not None for h in hs):
+                        items.append({"r": "occ", "path": hs})
+            if len(items) < 2:
+                return self()
+            r.shuffle(items)
+            root = {"r": "mix", "items": items}
         elif x < 0.42:
             kind = r.choice(["definition", "instance", "library", "port", "cable"])
             c = [h for h in w.order if kind_of(w.handles[h]) == kind]
